@@ -43,6 +43,7 @@ type VC struct {
 	quantDepth int
 	usesQ    bool
 	strLits  map[string]*Term
+	strVals  map[string]string
 	typeTags map[string]*Term
 	assumes  []string // textual notes of assumptions used (trusted models, etc.)
 	dropped  map[string]bool
@@ -335,6 +336,10 @@ func (vc *VC) StrLit(s string) *Term {
 	vc.decls = append(vc.decls, fmt.Sprintf("(declare-const %s Str) ; %q", name, s))
 	t := Sym(name, SStr)
 	vc.strLits[s] = t
+	if vc.strVals == nil {
+		vc.strVals = map[string]string{}
+	}
+	vc.strVals[name] = s
 	vc.declare("strlen", "(declare-fun strlen (Str) Int)")
 	vc.decls = append(vc.decls, fmt.Sprintf("(assert (= (strlen %s) %d))", name, len(s)))
 	return t
@@ -346,6 +351,10 @@ func (vc *VC) strAxioms() []string {
 	if vc.declared["strcat"] {
 		vc.declare("strlen", "(declare-fun strlen (Str) Int)")
 		out = append(out, "(assert (forall ((a Str) (b Str)) (! (= (strlen (strcat a b)) (+ (strlen a) (strlen b))) :pattern ((strcat a b)))))")
+		// concatenation is cancellative on both sides (free monoid): uninterpreted inverses
+		vc.declare("strcat.l", "(declare-fun strcat.l (Str Str) Str)")
+		vc.declare("strcat.r", "(declare-fun strcat.r (Str Str) Str)")
+		out = append(out, "(assert (forall ((a Str) (b Str)) (! (and (= (strcat.r a (strcat a b)) b) (= (strcat.l b (strcat a b)) a)) :pattern ((strcat a b)))))")
 	}
 	if len(vc.strLits) > 1 {
 		var names []string
@@ -678,3 +687,27 @@ type unsupportedErr struct{ msg string }
 
 func (u unsupportedErr) Error() string { return "unsupported: " + u.msg }
 func unsupported(msg string) error      { return unsupportedErr{msg} }
+
+// StrCat builds string concatenation, folding literals.
+func (vc *VC) StrCat(a, b *Term) *Term {
+	if a.IsLeaf() && b.IsLeaf() {
+		av, ok1 := vc.strVals[a.Op]
+		bv, ok2 := vc.strVals[b.Op]
+		if ok1 && ok2 {
+			return vc.StrLit(av + bv)
+		}
+	}
+	if a.IsLeaf() {
+		if av, ok := vc.strVals[a.Op]; ok && av == "" {
+			return b
+		}
+	}
+	if b.IsLeaf() {
+		if bv, ok := vc.strVals[b.Op]; ok && bv == "" {
+			return a
+		}
+	}
+	vc.declare("strcat", "(declare-fun strcat (Str Str) Str)")
+	vc.declare("strlen", "(declare-fun strlen (Str) Int)")
+	return App("strcat", SStr, a, b)
+}
